@@ -92,6 +92,21 @@ def mk_layout(spec):
                                     HorizontalAlignmentEnum, VerticalAlignmentEnum)
     if spec is None:
         return None
+    # half of the layouts use ONE Size object wherever the same length occurs (as the DFXP reader does for a
+    # one-value padding): value objects may be shared freely
+    import hashlib
+    shared = {} if hashlib.md5(repr(spec).encode('utf-8', 'surrogatepass')).digest()[1] % 2 == 0 else None
+    _plain_mk_size = globals()['mk_size']
+
+    def mk_size(s):                                   # local, sharing variant of the module-level mk_size
+        if s is None or shared is None:
+            return _plain_mk_size(s)
+        key = (float(s[0]), s[1])
+        if key not in shared:
+            shared[key] = _plain_mk_size(s)
+        else:
+            SHARED_SIZES[0] += 1
+        return shared[key]
     origin = extent = pad = align = None
     if spec.get('origin'):
         origin = Point(mk_size(spec['origin'][0]), mk_size(spec['origin'][1]))
@@ -130,6 +145,7 @@ def mk_caption(c):
 
 BUILD_PROBLEMS = []       # filled by mk_caption_set, drained by vf.core after every case
 BUILD_CHECKS = [0]
+SHARED_SIZES = [0]       # Size objects used in more than one place of a layout
 
 
 def _staged(spec):
